@@ -59,7 +59,14 @@ def _detail_flag(flag):
     return p
 
 
+def _crev_fixed(case, o):
+    idxs = {r[0] for r in case.get("revs", [])}
+    ks = list(case.get("fix_minus") or {}) + list(case.get("fix_plus") or {})
+    return any(int(k) in idxs for k in ks)
+
+
 PREDICATES = {
+    "crevision_fixed_values": _crev_fixed,
     "always": _always,
     "query_texts_collide": _texts_collide,
     "base_has_key_zero": _base_has_key_zero,
